@@ -290,7 +290,7 @@ def partial_of(kind, it):
     return list(it.out) if kind == "fatal" and it is not None else None
 
 
-def check_program(res, p, records, batches=(None,), style=0, monitor="prog", extra_sig=None, do_shrink=True):
+def check_program(res, p, records, batches=(None,), style=0, monitor="prog", extra_sig=None, do_shrink=True, shrink_budget=90):
     """Run the reference and mlr; record a violation (after shrinking) on disagreement.
     Returns the reference's outcome kind ("ok"/"fatal"/"decline") and the interpreter."""
     kind, exp, it = ref_run(p, records)
@@ -320,11 +320,11 @@ def check_program(res, p, records, batches=(None,), style=0, monitor="prog", ext
         sp, srecs = (p, records)
         if do_shrink and not fail_kind.startswith("hang"):
             try:
-                sp, srecs = shrink(p, records, batch, style, fail_kind, allowed=frozenset(it.feats))
+                sp, srecs = shrink(p, records, batch, style, fail_kind, budget=shrink_budget, allowed=frozenset(it.feats))
                 # a witness that carries a risk feature (known findings are matched on those): if the disagreement
                 # persists without the feature it is a different defect and must be reported as such
                 for f in sorted(ref_run(sp, srecs)[2].feats):
-                    sp2, srecs2 = shrink(sp, srecs, batch, style, fail_kind, budget=40, allowed=frozenset(it.feats), forbid=frozenset([f]))
+                    sp2, srecs2 = shrink(sp, srecs, batch, style, fail_kind, budget=25, allowed=frozenset(it.feats), forbid=frozenset([f]))
                     if sp2 is not sp or srecs2 is not srecs:
                         sp, srecs = sp2, srecs2
             except Exception:
@@ -940,7 +940,7 @@ def shape_case(case):
             kind, it = check_chain(res, p, recs, name)
         else:
             kind, it = check_program(res, p, recs, batches=(1, None) if rng.random() < 0.5 else (None,), style=style,
-                                     monitor="shape", extra_sig={"shape": name})
+                                     monitor="shape", extra_sig={"shape": name}, shrink_budget=45)     # shape programs are small already
         if kind in ("ok", "fatal"):
             nt = True
             absorb_stats(res, it)
@@ -1457,13 +1457,18 @@ COVERED = [
     "pattern-action, while, do-while, for (e in), for (k,v in), for ((k1,k2),v in), C-style for with multiple init/step, break/continue, "
     "begin/end (several), func/subr/call/return with typed parameters and return types, recursion, print/printn/dump/emit1/emitf/"
     "emit/emitp (non-lashed, lashed, by 0..3 names, @*/all/map-literal/function-call emittables), filter statement, put -q, put -x, "
-    "filter, filter -x, -s name=value",
+    "filter, filter -x, -s name=value; put/filter chains in both orders (out-of-stream variables private to each)",
+    "loops over locals / parameters / out-of-stream variables / indexed sub-maps whose elements are maps or arrays (2-3 levels), with bodies that "
+    "assign, op-assign or unset inside elements not yet visited, replace / add / remove elements, re-assign the base or write through the bound variable",
+    "records of 10-16 fields (across the 12-entry key-index threshold) under assignment, unset, positional rename, $* replacement and map-valued copies; "
+    "6-10 nested blocks with two locals each, 11-18 locals in one scope (also per activation of a recursive function)",
 ]
 NOT_COVERED = [
     "floating-point formatting and arithmetic beyond exact quarters, integer overflow, % with non-positive modulus, .+ .- .* ./ (C07)",
     "absent/empty in comparisons, ^^, !, bit operators, min/max collation across types (C08); sorting collation of mixed types (C09)",
     "string escapes, regex captures \\1..\\9, case-insensitive regex literals, sub/gsub/format/strptime etc. (C15, C16)",
-    "redirected output (tee/emit/print/dump > >> |), ENV, system/exec/os, nested map-valued input fields, positional rename onto an existing name",
+    "redirected output (tee/emit/print/dump > >> |), ENV, system/exec/os, nested map-valued input fields, numeric-looking strings from the data, "
+    "positional rename onto an existing name",
     "error values flowing anywhere (the reference declines), absent arguments to user functions, absent right-hand side of a typed declaration",
     "emit shapes the reference leaves open: lashed non-prefixed emit of maps with fewer names than levels-1, emit by >= 2 names with remaining map levels, "
     "mixed terminal/map levels, emit-by on scalars, indexed emittables (@x[1]), emitp of function values, redirects",
